@@ -21,7 +21,8 @@ TECHNIQUE = ("runtime monitoring: model-based differential testing of the real d
              "(posted control events in, hit/complete/timeout events and value/enabled/completed out)")
 RULE = ("case = 1-3 generated logic blocks (counter/accrual/sequence; direction, interval, start, goal, "
         "reset/disable on complete, hit window, timeout, custom event lists, shared events, persist_state in a mode, "
-        "delays of 100/500/1500 ms on control events in 30% of the blocks with 2-4 of the same event inside the delay) "
+        "delays of 100/500/1500 ms on control events in 30% of the blocks with 2-4 of the same event inside the delay, "
+        "template-valued goal in 30% / start in 12% of the counters with ops rewriting the variable between hits) "
         "plus 25-120 steps, each a burst of 1-4 events posted in one tick followed by a virtual-time gap (0, small, "
         "or aimed at a pending window/timeout deadline +-0/1/10 ms); distinct = block-type/config-class signature x "
         "sequence of model outcomes (accepted / rejected-disabled / rejected-window / rejected-order / completed / "
@@ -29,7 +30,13 @@ RULE = ("case = 1-3 generated logic blocks (counter/accrual/sequence; direction,
 ASSUMPTIONS = [
     "one external event has at most one role per block (roles of one event on the same block are ordered by handler "
     "priority, which the statement does not cover); different blocks may share events",
-    "counter start value lies strictly before the goal in counting direction; interval != 0; integer values",
+    "constant goals: counter start value lies strictly before the goal in counting direction; interval != 0; "
+    "integer values",
+    "dynamic goals (count_complete_value: machine.c18_goal_<b> / current_player.c18_goal_<b>, changed between hits "
+    "by set_machine_var / player variable writes, per player for current_player.*): the goal value current at an "
+    "accepted hit (or add/subtract/jump) decides completion; changing the goal alone never completes a block (the "
+    "next hit does if the value is then at/past the goal). Dynamic starting_count (machine.c18_start_<b>): the "
+    "value current at a reset / fresh start is the start value",
     "a count event accepted by an enabled but already completed (not reset) counter still counts and posts hit "
     "events but never a second completion (statement: 'accepted while enabled')",
     "add/subtract/jump control events change the value without posting hit events and complete the block when the "
@@ -62,11 +69,11 @@ TIERS = {
 MIN_EVALS = {
     "quick": {"state": 200000, "hit_events": 130000, "hits_rejected": 90000, "completion": 15000,
               "after_complete": 9000, "window": 20000, "timeout": 100000, "sequence_order": 15000,
-              "accrual_steps": 15000, "mode_restart": 3000, "persist": 1000, "no_crash": 100000, "delayed": 30000},
+              "accrual_steps": 15000, "mode_restart": 3000, "persist": 1000, "no_crash": 100000, "delayed": 30000, "dynamic_goal": 3000},
     "thorough": {"state": 8000000, "hit_events": 5000000, "hits_rejected": 3300000, "completion": 580000,
                  "after_complete": 330000, "window": 750000, "timeout": 4000000, "sequence_order": 580000,
                  "accrual_steps": 580000, "mode_restart": 100000, "persist": 33000, "no_crash": 4000000,
-                 "delayed": 1000000},
+                 "delayed": 1000000, "dynamic_goal": 100000},
 }
 SHRINK_KEYS = ["ops"]
 # mechanisms already triaged as genuine defects of the unchanged tree (reported last so that anything new is replayed)
@@ -123,6 +130,11 @@ def _gen_block(rng, name, in_mode, shared):
     kind = rng.choice(["counter", "counter", "counter", "accrual", "sequence"])
     if kind == "counter":
         b, ev = _gen_counter(rng, name, shared)
+        # dynamic (template) completion value / start value: machine.c18_goal_<name> | current_player.c18_goal_<name>
+        b["goal_var"] = None
+        if b["goal"] is not None and rng.random() < 0.3:
+            b["goal_var"] = "player" if (in_mode and rng.random() < 0.5) else "machine"
+        b["start_var"] = bool(rng.random() < 0.12)
     else:
         b = {"name": name, "type": kind, "steps": _gen_steps(rng, name, kind)}
         ev = {}
@@ -218,8 +230,34 @@ def gen_case(rng, tier, index):
         for name, sp in specs.items():
             cands[name] = M.m_mode_start(sp, cands[name][0], t, 1)[:1]
         t += ops[-1]["gap"] / 1000.0
+    dyn = [b for b in blocks if b.get("goal_var") or b.get("start_var")]
     for _ in range(nops):
         r = rng.random()
+        if dyn and rng.random() < 0.09:
+            b = rng.choice(dyn)
+            sp = specs[b["name"]]
+            st = cands[b["name"]][0]
+            sgn = 1 if sp.direction == "up" else -1
+            mag = abs(sp.hv)
+            if b.get("goal_var") and (not b.get("start_var") or rng.random() < 0.75):
+                cur = st.value if (st.alive and isinstance(st.value, int)) else sp.start
+                v = rng.choice([cur + sgn * mag * j for j in (0, 1, 1, 2, 2, 3, 5)] +
+                               [cur - sgn * mag, cur + sgn * (mag * 2 - 1), sp.start + sgn * mag * rng.randint(1, 5)])
+                op = {"sp": "setgoal", "block": b["name"], "value": v, "gap": rng.choice([0, 0, 0, 1, 10, 100])}
+                sp.goal = v
+            else:
+                v = rng.choice([0, 1, 2, 5, -3, 10, sp.start + sgn * mag])
+                op = {"sp": "setstart", "block": b["name"], "value": v, "gap": rng.choice([0, 0, 1, 10, 100])}
+                sp.start = v
+            ops.append(op)
+            t2 = t + op["gap"] / 1000.0
+            for name, sp2 in specs.items():
+                try:
+                    cands[name] = [y for x in cands[name][:1] for y in M.run_timers(sp2, x, t2)][-1:]
+                except M.ModelOverflow:
+                    pass
+            t = t2
+            continue
         if in_mode and r < 0.07:
             if mode_on and rng.random() < 0.25 and players:
                 op = {"sp": "end_ball", "gap": rng.choice([10, 100, 1000])}
@@ -323,9 +361,11 @@ def _block_cfg(b):
         c["count_events"] = evs(ev["count"])
         c["direction"] = b.get("dir", "up")
         c["count_interval"] = b.get("interval", 1)
-        c["starting_count"] = b.get("start", 0)
+        c["starting_count"] = ("machine.c18_start_%s" % b["name"]) if b.get("start_var") else b.get("start", 0)
         if b.get("goal") is not None:
-            c["count_complete_value"] = b["goal"]
+            c["count_complete_value"] = {"machine": "machine.c18_goal_%s" % b["name"],
+                                         "player": "current_player.c18_goal_%s" % b["name"]}.get(
+                b.get("goal_var"), b["goal"])
         if b.get("window"):
             c["multiple_hit_window"] = "%dms" % b["window"]
         if b.get("ctrl"):
@@ -344,12 +384,26 @@ def _configs(case):
     dev = {}
     for b in case["blocks"]:
         dev.setdefault(SECTION[b["type"]], {})[b["name"]] = _block_cfg(b)
+    mvars, pvars = {}, {}
+    for b in case["blocks"]:
+        if b.get("goal_var") == "machine":
+            mvars["c18_goal_%s" % b["name"]] = {"initial_value": b["goal"], "value_type": "int", "persist": False}
+        elif b.get("goal_var") == "player":
+            pvars["c18_goal_%s" % b["name"]] = {"initial_value": b["goal"], "value_type": "int"}
+        if b.get("start_var"):
+            mvars["c18_start_%s" % b["name"]] = {"initial_value": b["start"], "value_type": "int", "persist": False}
     if case.get("in_mode"):
         cfg = {"modes": [MODE], "game": {"balls_per_game": 99}}
         mode = {"mode": {"start_events": "c18_mode_start", "stop_events": "c18_mode_stop", "priority": 100}}
         mode.update(dev)
-        return cfg, {MODE: mode}, "fake"
-    return dev, None, "plain"
+        res = (cfg, {MODE: mode}, "fake")
+    else:
+        res = (dev, None, "plain")
+    if mvars:
+        res[0]["machine_vars"] = mvars
+    if pvars:
+        res[0]["player_vars"] = pvars
+    return res
 
 
 # =============================================================================================== classification
@@ -360,7 +414,7 @@ def _count_kind(sp, evs):
     return h, c, to
 
 
-def _classify(sp, prim, obs, dev_state, since_restart, pending_before):
+def _classify(sp, prim, obs, dev_state, since_restart, pending_before, dyn_goal=False):
     """Name the mechanism by diffing the observation against the model's preferred successor."""
     nh = max(1, len(sp.hit_events))
     nc = max(1, len(sp.complete_events))
@@ -401,6 +455,8 @@ def _classify(sp, prim, obs, dev_state, since_restart, pending_before):
         if sp.W and "hit_accepted" in notes:
             return "window", "C18:hit_rejected_outside_window"
         return "hit_events", "C18:hit_not_accepted"
+    if oc != ec and dyn_goal:
+        return "dynamic_goal", "C18:completion_against_stale_goal"
     if oc > ec:
         if "complete_suppressed" in notes or oc >= 2 * nc:
             return "completion", "C18:extra_completion"
@@ -443,12 +499,12 @@ def run_case(case):
 
     clauses = {k: 0 for k in ("state", "hit_events", "hits_rejected", "completion", "after_complete", "window",
                               "timeout", "sequence_order", "accrual_steps", "mode_restart", "no_crash", "persist",
-                              "delayed")}
+                              "delayed", "dynamic_goal")}
     obs_stats = {"events_recorded": 0, "steps": 0, "bursts": 0, "posts": 0, "timeouts_seen": 0, "completions_seen": 0,
                  "hits_seen": 0, "forks_max": 0, "seq_wrap_double_observed": 0, "tie_steps": 0, "blocks": 0,
                  "aborted_blocks": 0, "timeout_of_disabled_block_observed": 0,
                  "ctrl_applied_while_disabled_observed": 0, "delayed_scheduled": 0,
-                 "delayed_pending_max": 0, "mode_starts": 0, "mode_stops": 0, "ball_ends": 0}
+                 "delayed_pending_max": 0, "goal_changes": 0, "start_changes": 0, "mode_starts": 0, "mode_stops": 0, "ball_ends": 0}
     violations = []
     shape_parts = []
     trace = []
@@ -533,6 +589,8 @@ def run_case(case):
                 cands[name] = M.m_boot(sp, peek)
 
         mode_alive = [not in_mode]
+        player_goals = {n: {} for n in specs}
+        goal_changed = set()
 
         def step(idx, op):
             """Execute one step on the real machine and on every candidate; compare."""
@@ -543,6 +601,32 @@ def run_case(case):
             burst = list(op.get("post") or [])
             player_before = cur_player()
             crash = None
+            # dynamic goals: the goal in force is the template's current value (per player for current_player.*)
+            for n_, sp_ in specs.items():
+                if sp_.b.get("goal_var") == "player":
+                    sp_.goal = player_goals[n_].get(player_before, sp_.b["goal"])
+            if special in ("setgoal", "setstart"):
+                sp_ = specs.get(op.get("block"))
+                v_ = op.get("value")
+                if sp_ is not None and sp_.type == "counter" and isinstance(v_, int):
+                    nm = sp_.name
+                    if special == "setstart" and sp_.b.get("start_var"):
+                        m.variables.set_machine_var("c18_start_%s" % nm, v_)
+                        sp_.start = v_
+                        obs_stats["start_changes"] += 1
+                    elif special == "setgoal" and sp_.b.get("goal_var") == "machine":
+                        m.variables.set_machine_var("c18_goal_%s" % nm, v_)
+                        sp_.goal = v_
+                        goal_changed.add(nm)
+                        obs_stats["goal_changes"] += 1
+                    elif special == "setgoal" and sp_.b.get("goal_var") == "player" and m.game and m.game.player:
+                        m.game.player["c18_goal_%s" % nm] = v_
+                        player_goals[nm][player_before] = v_
+                        sp_.goal = v_
+                        goal_changed.add(nm)
+                        obs_stats["goal_changes"] += 1
+                special = None
+                burst = []
             try:
                 if special == "mode_start":
                     if mode_obj.active or not m.game:
@@ -679,7 +763,7 @@ def run_case(case):
                     prim = cs[0]
                     t_ref = min([a for a, b_, _ in ob if b_ == sp.timeout_event] or [t])
                     clause, sig = _classify(sp, prim, ob, ds if prim.alive else None, since_restart_f(name, t_ref),
-                                            bool(prim_before.pend))
+                                            bool(prim_before.pend), name in goal_changed)
                     violations.append({"clause": clause, "sig": sig, "detail": {
                         "block": sp.b, "step": idx, "op": op, "t": t, "t_end": t2,
                         "observed_events": [[round(a, 6), b_, list(k) if k else None] for a, b_, k in ob],
@@ -709,6 +793,8 @@ def run_case(case):
                 clauses["window"] += notes.count("hit_rejected_window") + notes.count("window_closed")
                 if sp.T and prim.alive:
                     clauses["timeout"] += notes.count("timeout_fired") + notes.count("timer_cancelled")
+                if name in goal_changed:
+                    clauses["dynamic_goal"] += na + notes.count("ctrl_applied")
                 clauses["delayed"] += notes.count("delayed_applied") + notes.count("delayed_dropped_by_mode_stop")
                 obs_stats["delayed_scheduled"] += notes.count("delayed_scheduled")
                 obs_stats["delayed_pending_max"] = max(obs_stats["delayed_pending_max"], len(prim.pend))
